@@ -384,7 +384,7 @@ def execute(sc):
 
 def describe():
     return dict(
-        rule=("Hypothesis-generated histories of GpOptimiser (d in {1,2}; EI / UCB / max-variance; bfgs / differential evolution; with and "
+        rule=("Hypothesis-generated histories of GpOptimiser (d in {1,2}, 3-6 initial evaluations, in a tenth of them 24-40 and d up to 3; EI / UCB / max-variance; bfgs / differential evolution; with and "
               "without y_err; x passed as 2-D array, 1-D array or list; new_x as row, flat array, 0-d array or list): propose, add the "
               "proposal, add a seeded in-bounds point, a near-duplicate, an outlier objective value. Model = list of rows. After every op: "
               "data set and fitted regressor equal the model, incumbent = max(y), proposals inside the closed box, every array the caller "
